@@ -34,6 +34,10 @@ class Types(object):
         self.thread_targets = []  # (owner ClassInfo, target FunctionInfo, Thread call node, fn)
         self.tainted_fields = set()  # field names holding user-supplied callables / objects
         self.tainted_containers = set()  # field names of containers holding user callables
+        self._fimports = {}
+        self._rt_stack = set()
+        self._rt_cache = {}
+        self._frozen = False
         self._infer()
 
     # type ids: "C:<class key>" for package classes, "E:<kind>" for externals
@@ -48,6 +52,24 @@ class Types(object):
 
     # ---------------------------------------------------------------- inference
     def _resolve_name(self, fi, name):
+        # function-level imports (used to break import cycles)
+        f = fi
+        while f is not None:
+            cache = self._fimports.get(f.key)
+            if cache is None:
+                cache = {}
+                for node in ast.walk(f.node):
+                    if isinstance(node, ast.ImportFrom):
+                        target = self.prog._abs_import(f.module, node.level, node.module)
+                        for a in node.names:
+                            cache[a.asname or a.name] = (target, a.name)
+                self._fimports[f.key] = cache
+            if name in cache:
+                target, sym = cache[name]
+                if target in self.prog.modules:
+                    return self.prog.resolve_symbol(target, sym)
+                return ("ext", "%s.%s" % (target, sym))
+            f = f.parent
         return self.prog.resolve_symbol(fi.module.name, name)
 
     def _local_assigns(self, fi):
@@ -66,7 +88,7 @@ class Types(object):
 
     def static_type(self, expr, fi, locals_=None, depth=0):
         """set of type ids for an expression evaluated inside fi (flow-insensitive)."""
-        if depth > 6 or expr is None:
+        if depth > 24 or expr is None:
             return set()
         if locals_ is None:
             locals_ = self._locals_cache.setdefault(fi.key, self._local_assigns(fi))
@@ -136,6 +158,10 @@ class Types(object):
                     o, m = ci.lookup(expr.func.attr)
                     if m is not None:
                         return self._return_type(m, depth)
+                if isinstance(expr.func.value, ast.Name) and fi.is_classmethod and fi.owner is not None and fi.params and expr.func.value.id == fi.params[0]:
+                    o, m = fi.owner.lookup(expr.func.attr)
+                    if m is not None:
+                        return self._return_type(m, depth)
                 if isinstance(expr.func.value, ast.Name):
                     r = self._resolve_name(fi, expr.func.value.id)
                     if r[0] == "class":
@@ -174,11 +200,19 @@ class Types(object):
 
     def _return_type(self, fn, depth):
         out = set()
-        if depth > 4:
+        if depth > 20 or fn.key in self._rt_stack:
             return out
-        for node in ast.walk(fn.node):
-            if isinstance(node, ast.Return) and node.value is not None:
-                out |= self.static_type(node.value, fn, None, depth + 2)
+        if fn.key in self._rt_cache:
+            return set(self._rt_cache[fn.key])
+        self._rt_stack.add(fn.key)
+        try:
+            for node in ast.walk(fn.node):
+                if isinstance(node, ast.Return) and node.value is not None:
+                    out |= self.static_type(node.value, fn, None, depth + 2)
+        finally:
+            self._rt_stack.discard(fn.key)
+        if self._frozen:
+            self._rt_cache[fn.key] = set(out)
         return out
 
     def _bind_call(self, callee, call, skip_first):
@@ -235,6 +269,7 @@ class Types(object):
             if not changed:
                 break
         self._infer_taint()
+        self._frozen = True
 
     def _callee_of(self, fi, call):
         """syntactic callee resolution for the type pre-pass: (FunctionInfo, skip_first, ClassInfo|None)."""
